@@ -3,7 +3,8 @@ import common
 
 
 def main():
-    common.cargo_build(["write-sim", "own-sim"])
+    common.cargo_build(["write-sim", "own-sim", "permute"])
+    common.tool_build()
     import c03_cpp
     c03_cpp.build()
     common.log("setup done")
